@@ -419,7 +419,17 @@ def _level_b(ctx, tree, n):
         case = dict(level="B", file=None if b is None else b.hex())
         ctx.case(case, nontrivial=bool(b) and b != CONF_HEADER)
         ctx.count("B:" + status)
-        cases.append(case); lines.append("read " + _file_arg(b))
+        mb = b
+        if status == "ok" and b is not None and not _is_utf8(b):
+            # the reader is lazy: it stopped (empty stanza) before reaching the
+            # undecodable bytes; the model gets the file up to the last complete
+            # line before them
+            try:
+                b.decode("utf-8")
+            except UnicodeDecodeError as e:
+                mb = b[:b.rfind(b"\n", 0, e.start) + 1]
+            ctx.count("B:lazy-prefix")
+        cases.append(case); lines.append("read " + _file_arg(mb))
         outs.append("ok " + enc_specs(back) if status == "ok" else status)
     replies = ctx.model(lines)
     for c, l, o, m in zip(cases, lines, outs, replies):
@@ -668,10 +678,10 @@ def run(ctx, scale=1):
         t.append(time.time())
         ctx.extra.setdefault("level_seconds", {})[name] = round(t[-1] - t[-2], 1)
 
-    _level_a(ctx, tree, ctx.pick(700, 12000) * scale); lap("A")
-    _level_b(ctx, tree, ctx.pick(300, 4000) * scale); lap("B")
-    _level_c(ctx, tree, ctx.pick(15, 150) * scale, ctx.pick(200, 2500) * scale); lap("C")
-    _level_d(ctx, tree, ctx.pick(200, 2500) * scale); lap("D")
+    _level_a(ctx, tree, ctx.pick(1000, 10000) * scale); lap("A")
+    _level_b(ctx, tree, ctx.pick(400, 3000) * scale); lap("B")
+    _level_c(ctx, tree, ctx.pick(20, 120) * scale, ctx.pick(250, 2000) * scale); lap("C")
+    _level_d(ctx, tree, ctx.pick(250, 2000) * scale); lap("D")
     _level_x(ctx, tree); lap("X")
 
 
